@@ -22,6 +22,11 @@ CHECKS = {
          'Every scenario of the product kind {sent, received, invoice payer, invoice issuer, late-locked, self-send sent/received side, sent spending an unconfirmed output (min_conf 0)} x change count {0,1,2} x stage {early, mid, finalized-not-posted} x other pending transactions {0,1,3} x addressing {log id, slate id} (quick: a stated sub-product) plus five refusal cases is executed on a real chain and real LMDB wallets; snapshots before creation, before cancel and after cancel are compared against the exact diff the statement allows (outputs, log entries, contexts, balances at min_conf 0/1/10, counterparty untouched).',
          'Scenario space is a fixed finite product; a refused cancel of a cancellable transaction is an outcome, not a violation.',
          'DESIGN.md §3 C05'),
+ 'C07': ('model_checking',
+         'explicit-state breadth-first search over request sequences on the real foreign API with a full-store diff oracle',
+         'From 4 base states of the target wallet (funded; pending outgoing send; pending incoming; issued invoice) every sequence of <=2 (quick) / <=3 (thorough) requests from a 47-request alphabet (check_version; build_coinbase with 6 key-id classes; receive_tx with honest and 22 single-field-mutated slates, echoed own/already-received/invoice slates, unknown and other destination accounts, return address; finalize_tx with unrelated, echoed, forged, stripped and re-stated replies; the two exempted valid replies as controls) is executed on grin_wallet_api::Foreign, a third of them through the JSON-RPC handler. Oracle per call: exact diff of outputs, log entries, stored contexts and indices; only "one unconfirmed output + one receive entry" / "one coinbase candidate" may appear; replays are refused; spendable never decreases.',
+         'Attacker slates are single-field mutations of honest slates from a second real wallet. States deduplicated by projection.',
+         'DESIGN.md §3 C07'),
  'C17': ('model_checking',
          'exhaustive parameter sweep of the real protocol steps and refresh on real worlds',
          'Every combination of protocol step {receive_tx, process_invoice_tx, owner finalize_tx, foreign finalize_tx} x cutoff class {0, 1, h-1, h, h+1, u64::MAX} relative to the height the wallet has observed x staleness of that observation x other pending transactions, and every combination of ttl_blocks {none,1,2,3,50} x blocks mined 0..4 x side {sender, recipient} x other pending transactions for refresh, is executed; oracle: refused iff cutoff != 0 and observed height >= cutoff, refusals change nothing, unexpired slates complete, refresh cancels exactly the expired pending transactions and releases their inputs.',
